@@ -33,7 +33,7 @@ class Cfg:
 
 class Case:
     def __init__(self, name, text, mode="U", m=2, n=2, ref_text=None, out_map=None, functors=None, family="", max_loop=40,
-                 consts_in_universe=True, assume=None):
+                 consts_in_universe=True, assume=None, judge="lm", judge_arg=None, orders=("fwd",)):
         self.name = name
         self.text = text
         self.ref_text = ref_text if ref_text is not None else text
@@ -46,6 +46,9 @@ class Case:
         self.max_loop = max_loop
         self.consts_in_universe = consts_in_universe
         self.assume = assume             # optional function(db) -> guard restricting the database (stated in evidence)
+        self.judge = judge               # name in judges.JUDGES: 'lm' = outputs equal the least model
+        self.judge_arg = judge_arg
+        self.orders = orders             # scan orders to try for order-dependent programs: fwd, rev, rot
 
 
 def souffle_show(text, cfg, work, what=None, extra_flags=()):
@@ -240,32 +243,31 @@ def check_case(case, cfgs, timeout_ms=60000, want_witness=True):
             tc = time.time()
             try:
                 prog = get_ram(case.text, cfg, work)
-                ex = ramexec.Exec(prog, ctx, db.inputs, max_loop=case.max_loop)
-                outs = ex.run_main()
-                res["loop_iters"] = ex.loop_iters
-                diffs = []
-                for oname, rel in outs.items():
-                    rname = case.out_map.get(oname, oname)
-                    if rname not in ref_out:
-                        raise EngineError("output %s has no counterpart in the reference" % oname)
-                    diffs.append((oname, rel_differ(rel, ref_out[rname])))
-                missing = [n for n in ref_out if n not in [case.out_map.get(o, o) for o in outs]]
-                if missing:
-                    raise EngineError("reference outputs %s not produced by the RAM program" % missing)
-                g = g_or(*[d for _, d in diffs])
-                tq = time.time()
-                r, model = ctx.check(g)
-                res["query_s"] = round(time.time() - tq, 3)
-                if r == "unsat":
-                    res["verdict"] = "equal"
-                elif r == "unknown":
-                    res["verdict"] = "inconclusive"
-                    res["why"] = "z3 gave no verdict within %d ms" % timeout_ms
-                else:
+                from . import judges
+                judge = judges.JUDGES[case.judge]
+                res["verdict"] = "equal"
+                for oname in case.orders:
+                    ex = ramexec.Exec(prog, ctx, db.inputs, max_loop=case.max_loop, order=judges.ORDERS[oname],
+                                      no_expire=(case.judge != "lm"))
+                    outs = ex.run_main()
+                    res["loop_iters"] = ex.loop_iters
+                    diffs = judge(case, refprog, ctx, db, ex, outs, ref_out)
+                    g = g_or(*[d for _, d in diffs])
+                    tq = time.time()
+                    r, model = ctx.check(g)
+                    res["query_s"] = round(res.get("query_s", 0) + time.time() - tq, 3)
+                    if r == "unsat":
+                        continue
+                    if r == "unknown":
+                        res["verdict"] = "inconclusive"
+                        res["why"] = "z3 gave no verdict within %d ms" % timeout_ms
+                        break
                     res["verdict"] = "differ"
+                    res["order"] = oname
                     facts = db.concretize(model)
                     res["facts"] = {k: [list(t) for t in v] for k, v in facts.items()}
                     res["which"] = [n for n, d in diffs if d is not False and (d is True or z3.is_true(model.eval(sym.g_z3(d), model_completion=True)))]
+                    break
             except ramexec.Unsupported as e:
                 res["verdict"] = "unsupported"
                 res["why"] = str(e)
@@ -301,12 +303,20 @@ def replay_differ(case, cfg, facts, tag):
     facts = {k: [tuple(t) for t in v] for k, v in facts.items()}
     write_facts(refprog, facts, fd)
     rc, real, err = run_real(case.text, cfg, fd, os.path.join(d, "out"))
-    want = ref_concrete(refprog, facts, case.functors)
     info = []
     repro = False
     if rc != 0:
         info.append("souffle exited with rc=%d: %s" % (rc, err[-300:]))
         repro = True
+    want = {}
+    if case.judge != "lm":
+        from . import judges
+        why = judges.replay_contract(case, refprog, facts, real) if rc == 0 else []
+        if why:
+            repro = True
+            info += why
+    else:
+        want = ref_concrete(refprog, facts, case.functors)
     for oname_ref, lines in want.items():
         onames = [o for o, r in case.out_map.items() if r == oname_ref] or [oname_ref]
         for o in onames:
